@@ -14,6 +14,7 @@
 #include "cppParameterList.h"
 #include "cppInstance.h"
 #include "cppIdentifier.h"
+#include "cppConstType.h"
 
 /**
  *
@@ -37,7 +38,17 @@ is_equivalent(const CPPParameterList &other) const {
     return false;
   }
   for (int i = 0; i < (int)_parameters.size(); ++i) {
-    if (!_parameters[i]->_type->is_equivalent(*other._parameters[i]->_type)) {
+    // A top-level const on a parameter is not part of the function's type:
+    // f(int) and f(const int) are the same function.
+    CPPType *type = _parameters[i]->_type;
+    while (type->as_const_type() != nullptr) {
+      type = type->as_const_type()->_wrapped_around;
+    }
+    CPPType *other_type = other._parameters[i]->_type;
+    while (other_type->as_const_type() != nullptr) {
+      other_type = other_type->as_const_type()->_wrapped_around;
+    }
+    if (!type->is_equivalent(*other_type)) {
       return false;
     }
   }
